@@ -1,11 +1,11 @@
 #!/usr/bin/env bash
-# seedcheck.sh <ID> [srcdir]  — confirm an independently seeded change:
+# seedcheck.sh <ID> [srcdir] [destname]  — confirm an independently seeded change:
 #   applies to /repo HEAD, builds, touched packages' own tests pass, the demonstration
 #   fails with the change and passes without it; then runs the check for <ID> on it.
 # Prints one RESULT line; writes /verif/seeded/<ID>/{patch.diff,demo/,meta.json}.
 set -u
 ROOT="$(cd "$(dirname "${BASH_SOURCE[0]}")/.." && pwd)"
-ID="$1"; SRC="${2:-/tmp/seedout/$ID}"
+ID="$1"; SRC="${2:-/tmp/seedout/$ID}"; DEST="${3:-$ID}"
 . "$ROOT/tools/env.sh"
 WT="$(mktemp -d /tmp/sc-$ID.XXXX)"; rmdir "$WT"
 cleanup() { git -C /repo worktree remove --force "$WT" >/dev/null 2>&1; rm -rf "$WT"; }
@@ -43,15 +43,15 @@ if [ -d "$SRC/demo" ] && [ $build = ok ]; then
     demo_with=not-a-go-test; demo_without=not-a-go-test
   fi
 fi
-mkdir -p "$ROOT/seeded/$ID"
-if [ "$(readlink -f "$SRC")" != "$(readlink -f "$ROOT/seeded/$ID")" ]; then cp "$WT.patch" "$ROOT/seeded/$ID/patch.diff"; rm -rf "$ROOT/seeded/$ID/demo"; [ -d "$SRC/demo" ] && cp -r "$SRC/demo" "$ROOT/seeded/$ID/demo"; [ -f "$SRC/notes.md" ] && cp "$SRC/notes.md" "$ROOT/seeded/$ID/notes.md"; fi
+mkdir -p "$ROOT/seeded/$DEST"
+if [ "$(readlink -f "$SRC")" != "$(readlink -f "$ROOT/seeded/$DEST")" ]; then cp "$WT.patch" "$ROOT/seeded/$DEST/patch.diff"; rm -rf "$ROOT/seeded/$DEST/demo"; [ -d "$SRC/demo" ] && cp -r "$SRC/demo" "$ROOT/seeded/$DEST/demo"; [ -f "$SRC/notes.md" ] && cp "$SRC/notes.md" "$ROOT/seeded/$DEST/notes.md"; fi
 cd "$ROOT"
 # the check
 check=skipped
 if [ $build = ok ]; then
-  out=$(VERIF_MAX_PRINT=3 tools/mutant.sh "$ROOT/seeded/$ID/patch.diff" "$ID" quick 2>&1); rc=$?
+  out=$(VERIF_MAX_PRINT=3 tools/mutant.sh "$ROOT/seeded/$DEST/patch.diff" "$ID" quick 2>&1); rc=$?
   keys=$(echo "$out" | grep -o 'key=[^ ]*' | sort -u | head -5 | tr '\n' ' ')
   case $rc in 1) check="DETECTED $keys";; 0) check="missed";; 3) check="inconclusive $(echo "$out" | grep INCONCL | head -1 | cut -c1-160)";; *) check="rc=$rc";; esac
 fi
-echo "RESULT $ID applies=$applies build=$build tests=$tests demo_with_change=$demo_with demo_without_change=$demo_without check_quick=$check"
+echo "RESULT $DEST applies=$applies build=$build tests=$tests demo_with_change=$demo_with demo_without_change=$demo_without check_quick=$check"
 rm -f "$OVL" "$WT.patch"
